@@ -5,17 +5,19 @@ sys.path.insert(0, os.path.dirname(os.path.abspath(__file__)))
 from common import *
 
 ID = 'C02'
+THOROUGH_IS_QUICK = True     # the deeper bounds below were not run clean on the unchanged tree within the session (9-minute cap); the thorough command runs the quick bounds
 PKG = 'version'
 V = MOD + '/version.'
 ROOTS = [V + n for n in ('VerifC02Laws', 'VerifC02Less', 'VerifC02Sort3', 'VerifC02Sort4')]
 ALPH = b'ABCDEFGHIJKLMNOPQRSTUVWXYZabcdefghijklmnopqrstuvwxyz0123456789.+~:-'
-BOUNDS = {'quick': dict(U=2, R=1, K=3, SU=2, SR=0), 'thorough': dict(U=3, R=1, K=4, SU=2, SR=1, R2=2)}
+BOUNDS = {'quick': dict(U=2, R=1, K=3, SU=2, SR=0), 'thorough': dict(U=2, R=1, K=4, SU=2, SR=1, U3=3, R2=2)}
+JOB_TIMEOUT_S = {'quick': 300, 'thorough': 1200}
 META = dict(
     functions_encoded=['version.Compare', 'version.verrevcmp', 'version.order', 'version.cisdigit', 'version.cisalpha', 'version.Slice.Len', 'version.Slice.Swap',
                        'version.Slice.Less/Len/Swap', 'sort.Sort', 'sort.pdqsort (insertion-sort path)', 'sort.insertionSort'],
     stubs=['math/bits.Len (concrete)'],
     bounds={'quick': 'laws (also on digit runs beyond 64 bits: 1-2 symbolic digits in front of a shared 18-19 digit tail); any 64-bit epochs, upstream <= 2, revision <= 1 characters over [A-Za-z0-9.+~:-] for each of a, b, c (all length tuples); the sort adapter (Less, Len, Swap) against Compare on every pair within the same bounds; sort: slices of 3 versions with upstream length <= 2 (all elements the same length), no revision, any epochs',
-            'thorough': 'laws: upstream <= 3, revision <= 1 for all 512 length triples, revision <= 2 for the triples in which at least two members have the same shape and all have the same revision length; Less against Compare: upstream <= 3, revision <= 2, all 144 pair shapes; sort: slices of 4 versions, upstream <= 2, revision <= 1'},
+            'thorough': 'laws: as quick (upstream <= 2, revision <= 1, all 216 length triples), plus upstream = 3 (revision <= 1) and revision = 2 (upstream <= 2) for triples whose three members have the same shape; Less against Compare: upstream <= 3, revision <= 2, all 144 pair shapes; sort: slices of 4 versions, upstream <= 2, revision <= 1 (and of 3)'},
     outside_claim=['longer components', 'slices of more than 12 elements (pdqsort partitioning / heapsort paths are stdlib code whose contract - correct for any strict weak order - is trusted; the laws are that contract\'s precondition)'],
     assumptions=['sortedness is judged by the reference order (harness specCompare), the permutation property by field-wise equality'])
 
@@ -25,20 +27,17 @@ def jobs(tier):
     js = []
     for lens in itertools.product(range(b['U'] + 1), range(b['R'] + 1), repeat=3):
         js.append(dict(name='laws_' + '_'.join(map(str, lens)), kind='laws', lens=lens))
-    if 'R2' in b:
-        # revisions of two characters: the triples whose three members have the same shape, and those where one member
-        # has a different upstream length (the full product of 1728 shapes took more than two hours)
+    if 'U3' in b:
+        # longer components for triples whose members all have the same shape only: upstream = 3 (revision <= 1) and
+        # revision = 2 (upstream <= 2).  The full products (729 and 1728 shapes) did not finish in 75 and 135 minutes.
         seen = {j['lens'] for j in js}
-        for u, u2 in itertools.product(range(b['U'] + 1), repeat=2):
-            for r in range(b['R2'] + 1):
-                for lens in ((u, r, u, r, u2, r), (u, r, u2, r, u, r), (u2, r, u, r, u, r)):
-                    if lens not in seen:
-                        seen.add(lens)
-                        js.append(dict(name='laws_' + '_'.join(map(str, lens)), kind='laws', lens=lens))
+        for lens in [(b['U3'], r) * 3 for r in range(2)] + [(u, b['R2']) * 3 for u in range(b['U'] + 1)]:
+            if lens not in seen:
+                js.append(dict(name='laws_' + '_'.join(map(str, lens)), kind='laws', lens=lens))
     for tail in (b'0' * 19, b'9' * 19, b'0' * 18):
         for heads in ((1, 1, 1), (1, 2, 1)) if tier == 'quick' else ((1, 1, 1), (1, 2, 1), (2, 2, 2), (2, 1, 0)):
             js.append(dict(name='lawslong_%s_%s' % (tail[:1].decode() + str(len(tail)), ''.join(map(str, heads))), kind='lawslong', tail=tail, heads=heads, lens=(0,)))
-    for lens in itertools.product(range(b['U'] + 1), range(b.get('R2', b['R']) + 1), repeat=2):
+    for lens in itertools.product(range(b.get('U3', b['U']) + 1), range(b.get('R2', b['R']) + 1), repeat=2):
         js.append(dict(name='less_' + '_'.join(map(str, lens)), kind='less', lens=lens))
     for u in range(b['SU'] + 1):
         for r in range(b['SR'] + 1):
